@@ -212,7 +212,9 @@ func oraclePanic(r *rng, n int, st *oracleStats) []oracleFailure {
 			report("Collection.UpdateMany(weird filter)", guarded(func() {
 				coll.UpdateMany(ctx, w1, bson.D{{Key: "$set", Value: bson.D{{Key: "z", Value: val}}}}, options.Update().SetUpsert(r.chance(1, 2)))
 			}), w1, val)
-			report("Collection.ReplaceOne", guarded(func() { coll.ReplaceOne(ctx, bson.D{{Key: "_id", Value: idDoc[0].Value}}, bson.D{{Key: "b", Value: val}}) }), idDoc)
+			report("Collection.ReplaceOne", guarded(func() {
+				coll.ReplaceOne(ctx, bson.D{{Key: "_id", Value: idDoc[0].Value}}, bson.D{{Key: "b", Value: val}})
+			}), idDoc)
 			report("Collection.Find", guarded(func() {
 				cur, err := coll.Find(ctx, w1, options.Find().SetSort(w3).SetProjection(w2).SetSkip(int64(r.intn(3))).SetLimit(int64(r.intn(3))))
 				if err == nil {
